@@ -50,6 +50,7 @@ type fxGroup struct {
 	Users map[string]*fxUser
 	Order []string
 	Wild  bool
+	AnyPw string // name of the user whose password has type "wildcard"
 	HSKey []byte
 	HSKid string
 	Auto  bool               // "auto-subgroups": true
@@ -261,6 +262,11 @@ func (w *world) buildMatrixFixture(variant int, r *rand.Rand) *fixture {
 				w.addMarker(u.Name, name)
 			}
 		}
+		// a named user whose password is of type "wildcard": every password is its current one
+		anyu := "MRKu" + tag + "anypw"
+		users[anyu] = map[string]any{"password": map[string]any{"type": "wildcard"}, "permissions": "observe"}
+		g.AnyPw = anyu
+		w.addMarker(anyu, name)
 		if name == "MRKorg/MRKteam" {
 			// the parent's administrator also has an (ordinary) account here, under the same
 			// name but with another password
